@@ -779,9 +779,9 @@ pub(super) fn translate_select_item(cid: rq::CId, ctx: &mut Context) -> Result<S
             // or use something that will not clash with other names: regenerate
             // until unused, a user column may be spelled like a generated name
             // (`_expr_0`)
-            let mut name = ctx.anchor.col_name.gen();
+            let mut name = ctx.anchor.gen_col_name();
             while ctx.anchor.column_names.values().any(|n| *n == name) {
-                name = ctx.anchor.col_name.gen();
+                name = ctx.anchor.gen_col_name();
             }
             name
         });
